@@ -128,33 +128,38 @@ type Explorer struct {
 	Sh      *Shared
 	Harness string
 
-	prefix     []int
-	pos        int
-	pc         []*smt.Term
-	pcSet      map[int]bool
-	pcVars     []*smt.Term
-	varSeen    map[int]bool
-	models     []*cachedModel
-	CacheHits  int
-	taken      []int
-	freshN     int
-	reached    []string
-	namedVars  map[string]bool
-	steps      int
-	MaxSteps   int
-	hashApps   []hashApp
-	opaque     []opaqueEntry
-	logs       []string
-	sinks      []sinkRec
-	secrets    []*smt.Term
-	sched      *scheduler
-	AllocLimit int64
-	ForkLimit  int
-	freshCat   map[string]int
-	freshSizes map[string][]int
-	inSizes    map[string]int
-	clock      int64
-	Funcs      map[string]bool
+	prefix           []int
+	pos              int
+	pc               []*smt.Term
+	pcSet            map[int]bool
+	pcVars           []*smt.Term
+	varSeen          map[int]bool
+	models           []*cachedModel
+	CacheHits        int
+	pcRoot           []int
+	uf               map[int]int
+	termVars         map[int][]*smt.Term
+	NoSlicing        bool
+	AllowTagsInFresh bool
+	taken            []int
+	freshN           int
+	reached          []string
+	namedVars        map[string]bool
+	steps            int
+	MaxSteps         int
+	hashApps         []hashApp
+	opaque           []opaqueEntry
+	logs             []string
+	sinks            []sinkRec
+	secrets          []*smt.Term
+	sched            *scheduler
+	AllocLimit       int64
+	ForkLimit        int
+	freshCat         map[string]int
+	freshSizes       map[string][]int
+	inSizes          map[string]int
+	clock            int64
+	Funcs            map[string]bool
 }
 
 func NewExplorer(sh *Shared, solverKind string, timeout time.Duration, harness string) (*Explorer, error) {
@@ -177,6 +182,11 @@ func (e *Explorer) startPath(prefix []int) {
 	e.pcSet = map[int]bool{}
 	e.pcVars = e.pcVars[:0]
 	e.varSeen = map[int]bool{}
+	e.pcRoot = e.pcRoot[:0]
+	e.uf = map[int]int{}
+	if e.termVars == nil || len(e.termVars) > 200000 {
+		e.termVars = map[int][]*smt.Term{}
+	}
 	for _, m := range e.models {
 		m.alive = true
 	}
@@ -192,6 +202,7 @@ func (e *Explorer) startPath(prefix []int) {
 	e.secrets = nil
 	e.sched = nil
 	e.freshCat = nil
+	e.AllowTagsInFresh = false
 	e.freshSizes = map[string][]int{}
 	e.inSizes = map[string]int{}
 	e.clock = 0
@@ -236,21 +247,115 @@ func (e *Explorer) feasible(extra *smt.Term) smt.Result {
 			return smt.Sat
 		}
 	}
-	as := make([]*smt.Term, 0, len(e.pc)+1)
-	as = append(as, e.pc...)
+	r, _ := e.query(extra)
+	return r
+}
+
+// query decides pc ∧ extra. With a known full model of pc it only sends the constraints that share
+// variables (transitively) with extra; a satisfying partial assignment is merged into the full model.
+func (e *Explorer) query(extra *smt.Term) (smt.Result, *cachedModel) {
+	var base *cachedModel
+	for i := len(e.models) - 1; i >= 0; i-- {
+		if e.models[i].alive {
+			base = e.models[i]
+			break
+		}
+	}
+	xv := e.varsOfTerm(extra)
+	var as []*smt.Term
+	var vars []*smt.Term
+	if base != nil && !e.NoSlicing {
+		roots := map[int]bool{}
+		for _, v := range xv {
+			roots[e.find(v.ID)] = true
+		}
+		for i, c := range e.pc {
+			if r := e.pcRoot[i]; r >= 0 && roots[e.find(r)] {
+				as = append(as, c)
+			}
+		}
+		seen := map[int]bool{}
+		for _, c := range as {
+			for _, v := range e.varsOfTerm(c) {
+				if !seen[v.ID] {
+					seen[v.ID] = true
+					vars = append(vars, v)
+				}
+			}
+		}
+		for _, v := range xv {
+			if !seen[v.ID] {
+				seen[v.ID] = true
+				vars = append(vars, v)
+			}
+		}
+	} else {
+		as = append(as, e.pc...)
+		e.collectVars(extra)
+		vars = e.pcVars
+	}
 	if !extra.IsTrue() {
 		as = append(as, extra)
 	}
-	vars := e.pcVarList(extra)
 	r, m := e.Solver.Check(as, vars)
-	if r == smt.Sat {
-		env := map[string]uint64{}
-		for _, v := range vars {
-			env[v.Name] = m[v.Ref()]
-		}
-		e.addModel(env)
+	if r != smt.Sat {
+		return r, nil
 	}
-	return r
+	env := map[string]uint64{}
+	if base != nil && !e.NoSlicing {
+		for k, v := range base.env {
+			env[k] = v
+		}
+	}
+	for _, v := range vars {
+		env[v.Name] = m[v.Ref()]
+	}
+	e.addModel(env)
+	return r, e.models[len(e.models)-1]
+}
+
+// varsOfTerm returns the variables of t (memoised per term).
+func (e *Explorer) varsOfTerm(t *smt.Term) []*smt.Term {
+	if vs, ok := e.termVars[t.ID]; ok {
+		return vs
+	}
+	vs := smt.VarsOf([]*smt.Term{t})
+	e.termVars[t.ID] = vs
+	return vs
+}
+
+func (e *Explorer) find(x int) int {
+	for {
+		p, ok := e.uf[x]
+		if !ok || p == x {
+			return x
+		}
+		if gp, ok := e.uf[p]; ok && gp != p {
+			e.uf[x] = gp
+		}
+		x = p
+	}
+}
+
+func (e *Explorer) union(a, b int) {
+	ra, rb := e.find(a), e.find(b)
+	if ra != rb {
+		e.uf[ra] = rb
+	}
+}
+
+// notePC records the variable component of the constraint just appended to pc.
+func (e *Explorer) notePC(c *smt.Term) {
+	vs := e.varsOfTerm(c)
+	root := -1
+	for _, v := range vs {
+		if root < 0 {
+			root = v.ID
+		} else {
+			e.union(root, v.ID)
+		}
+	}
+	e.pcRoot = append(e.pcRoot, root)
 }
 
 // pcVarList returns the variables of the path condition plus extra.
@@ -363,6 +468,23 @@ func (e *Explorer) addPC(c *smt.Term) {
 	}
 	e.pcSet[c.ID] = true
 	e.pc = append(e.pc, c)
+	e.notePC(c)
+	e.collectVars(c)
+	for _, m := range e.models {
+		if m.alive && !m.holds(c) {
+			m.alive = false
+		}
+	}
+}
+
+// addPCRaw appends one constraint without flattening it.
+func (e *Explorer) addPCRaw(c *smt.Term) {
+	if c.IsTrue() || e.pcSet[c.ID] {
+		return
+	}
+	e.pcSet[c.ID] = true
+	e.pc = append(e.pc, c)
+	e.notePC(c)
 	e.collectVars(c)
 	for _, m := range e.models {
 		if m.alive && !m.holds(c) {
@@ -378,14 +500,27 @@ func (e *Explorer) AssumeNoCheck(c *smt.Term) {
 }
 
 func (e *Explorer) model(extra *smt.Term) (smt.Result, map[string]uint64) {
-	as := append([]*smt.Term{}, e.pc...)
-	if extra != nil && !extra.IsTrue() {
-		as = append(as, extra)
+	if extra == nil {
+		extra = e.Ctx.True
 	}
-	vars := smt.VarsOf(as)
-	// include all named inputs created on this path so the replay is complete
-	sort.Slice(vars, func(i, j int) bool { return vars[i].ID < vars[j].ID })
-	return e.Solver.Check(as, vars)
+	for i := len(e.models) - 1; i >= 0; i-- {
+		if m := e.models[i]; m.alive && m.holds(extra) {
+			return smt.Sat, copyEnv(m.env)
+		}
+	}
+	r, cm := e.query(extra)
+	if r != smt.Sat {
+		return r, nil
+	}
+	return r, copyEnv(cm.env)
+}
+
+func copyEnv(env map[string]uint64) map[string]uint64 {
+	out := make(map[string]uint64, len(env))
+	for k, v := range env {
+		out[k] = v
+	}
+	return out
 }
 
 // Assert checks a property obligation; a violation is recorded with a model and the path continues under the assertion.
